@@ -257,37 +257,37 @@ def goSegIndef {T I : Type} [Codec T FX] [HasIntegral T (Knot FX) I] [Evaluate I
 
 def goPwMul {T : Type} [Codec T FX] [PMul T FX T] [Nums T FX] (a : Args) : String :=
   match (arg a "pw").bind (segs? (T := T)), (arg a "s").bind fx? with
-  | some segs, some s => verdict a (Out.ofPw (Hand.pwMul ⟨segs⟩ s)) (Mon.pwShape (segs.map fun g => (g.end, Nums.nums g.poly)))
+  | some segs, some s => verdict a (Out.ofPw (Hand.pwMul ⟨segs⟩ s)) (Mon.pwOps "mul" (arg a "T") (segs.map fun g => (g.end, Nums.nums g.poly)) ((arg a "s").bind fx?))
   | _, _ => "bad args"
 
 def goSegMul {T : Type} [Codec T FX] [PMul T FX T] [Nums T FX] (a : Args) : String :=
   match (arg a "pw").bind (segs? (T := T)), (arg a "s").bind fx? with
-  | some [sg], some s => verdict a (Out.ofSegs [(PMul.mul sg s : Segment FX T)]) (Mon.pwShape ([sg].map fun g => (g.end, Nums.nums g.poly)))
+  | some [sg], some s => verdict a (Out.ofSegs [(PMul.mul sg s : Segment FX T)]) (Mon.pwOps "mul" (arg a "T") ([sg].map fun g => (g.end, Nums.nums g.poly)) ((arg a "s").bind fx?))
   | _, _ => "bad args"
 
 def goPwMulAssign {T : Type} [Codec T FX] [PMulAssign T FX] [Nums T FX] (a : Args) : String :=
   match (arg a "pw").bind (segs? (T := T)), (arg a "s").bind fx? with
-  | some segs, some s => verdict a (Out.ofPw (Hand.pwMulAssign ⟨segs⟩ s)) (Mon.pwShape (segs.map fun g => (g.end, Nums.nums g.poly)))
+  | some segs, some s => verdict a (Out.ofPw (Hand.pwMulAssign ⟨segs⟩ s)) (Mon.pwOps "mulassign" (arg a "T") (segs.map fun g => (g.end, Nums.nums g.poly)) ((arg a "s").bind fx?))
   | _, _ => "bad args"
 
 def goSegMulAssign {T : Type} [Codec T FX] [PMulAssign T FX] [Nums T FX] (a : Args) : String :=
   match (arg a "pw").bind (segs? (T := T)), (arg a "s").bind fx? with
-  | some [sg], some s => verdict a (Out.ofSegs [PMulAssign.mulAssign sg s]) (Mon.pwShape ([sg].map fun g => (g.end, Nums.nums g.poly)))
+  | some [sg], some s => verdict a (Out.ofSegs [PMulAssign.mulAssign sg s]) (Mon.pwOps "mulassign" (arg a "T") ([sg].map fun g => (g.end, Nums.nums g.poly)) ((arg a "s").bind fx?))
   | _, _ => "bad args"
 
 def goPwNeg {T : Type} [Codec T FX] [PNeg T T] [Nums T FX] (a : Args) : String :=
   match (arg a "pw").bind (segs? (T := T)) with
-  | some segs => verdict a (Out.ofPw (Hand.pwNeg ⟨segs⟩)) (Mon.pwShape (segs.map fun g => (g.end, Nums.nums g.poly)))
+  | some segs => verdict a (Out.ofPw (Hand.pwNeg ⟨segs⟩)) (Mon.pwOps "neg" (arg a "T") (segs.map fun g => (g.end, Nums.nums g.poly)) none)
   | _ => "bad args"
 
 def goPwTranslate {T : Type} [Codec T FX] [Translate T FX] [Nums T FX] (a : Args) : String :=
   match (arg a "pw").bind (segs? (T := T)), (arg a "v").bind fx? with
-  | some segs, some v => verdict a (Out.ofPw (Hand.pwTranslate ⟨segs⟩ v)) (Mon.pwShape (segs.map fun g => (g.end, Nums.nums g.poly)))
+  | some segs, some v => verdict a (Out.ofPw (Hand.pwTranslate ⟨segs⟩ v)) (Mon.pwOps "translate" (arg a "T") (segs.map fun g => (g.end, Nums.nums g.poly)) ((arg a "v").bind fx?))
   | _, _ => "bad args"
 
 def goSegTranslate {T : Type} [Codec T FX] [Translate T FX] [Nums T FX] (a : Args) : String :=
   match (arg a "pw").bind (segs? (T := T)), (arg a "v").bind fx? with
-  | some [sg], some v => verdict a (Out.ofSegs [Translate.translate sg v]) (Mon.pwShape ([sg].map fun g => (g.end, Nums.nums g.poly)))
+  | some [sg], some v => verdict a (Out.ofSegs [Translate.translate sg v]) (Mon.pwOps "translate" (arg a "T") ([sg].map fun g => (g.end, Nums.nums g.poly)) ((arg a "v").bind fx?))
   | _, _ => "bad args"
 
 def goPwAbsDiff {T : Type} [Codec T FX] [AbsDiffEq T FX] [Nums T FX] (a : Args) : String :=
